@@ -240,12 +240,18 @@ def reference_uses(e):
     return out
 
 
-def inject_reuse(rng, e):
-    """mode (b): (e', info) or None"""
+def inject_reuse(rng, e, alias=None):
+    """mode (b): (e', info) or None; with alias, the second use spells the reference through the event's own
+    alias (`@M.x` next to `x`): the two become one reference only when the event rewrites its alias"""
     uses = reference_uses(e)
+    if alias is not None:
+        uses = [u for u in uses if A.has_this(u[0])]
     if not uses:
         return None
     r, K, via = gen.pick(rng, uses)
+    r_host = r
+    if alias is not None:
+        r = A.replace_this(r, A.var(alias))
     others = [k for k in USES if k != K]
     # a reference used as ARRAY/MESSAGE and then at a primitive kind, or at two different primitive kinds
     K2 = gen.pick(rng, others)
@@ -263,8 +269,8 @@ def inject_reuse(rng, e):
     e2 = parts[0]
     for q in parts[1:]:
         e2 = ('bin', 'and', e2, q)
-    return e2, {'mode': 'b', 'reference': A.render_expr(r), 'first_use': K, 'via': via, 'second_use': K2,
-                'generic_middle': generic is not None}
+    return e2, {'mode': 'b', 'reference': A.render_expr(r_host), 'first_use': K, 'via': via, 'second_use': K2,
+                'generic_middle': generic is not None, 'through_own_alias': alias}
 
 
 def inject_bound_clash(rng, e):
@@ -324,6 +330,7 @@ def run(ctx):
             continue
         mode_b = rng.random() < 0.35
         base_e = e
+        own_alias = None
         if i % 8 == 7:
             level = gen.pick(rng, ('condition', 'predicate', 'property'))
             inj = inject_bound_clash(rng, e)
@@ -331,7 +338,9 @@ def run(ctx):
             inj = inj[:2]
         elif mode_b:
             level = gen.pick(rng, ('condition', 'predicate', 'property'))
-            inj = inject_reuse(rng, e)
+            if level == 'property' and rng.random() < 0.5:
+                own_alias = 'M'
+            inj = inject_reuse(rng, e, own_alias)
         else:
             level = gen.pick(rng, ('expression', 'condition', 'predicate', 'property'))
             inj = inject_clash(rng, e, root_is_predicate=level != 'expression')
@@ -342,12 +351,14 @@ def run(ctx):
         if not A.renderable(e2):
             ctx.skip('not-renderable')
             continue
-        base_text = text_for(level, base_e)
+        base_text = text_for(level, base_e, alias=own_alias)
         ob = hplapi.outcome(P[level].parse, base_text)
         if ob[0] != 'ok':
             ctx.skip('base-rejected:' + type(ob[1]).__name__)
             continue
-        text = text_for(level, e2)
+        text = text_for(level, e2, alias=own_alias)
+        if own_alias:
+            ctx.count('through_own_alias')
         feats = A.features(e2) | {'api:parse_' + level, 'shape:mode-' + info['mode']}
         if info['mode'] == 'b':
             feats.add('shape:definite-via-' + info['via'])
